@@ -24,6 +24,7 @@ import (
 	"net/http"
 
 	"verif/sim/kernel"
+	"verif/sim/lockrt"
 	"verif/sim/oracle"
 	"verif/sim/reflog"
 )
@@ -176,13 +177,17 @@ func (i *incarnation) finished() bool {
 type World struct {
 	mode Mode
 	s    *kernel.Sim
-	h    *hub
-	prof Profile
-	pki  *srcPKI
-	src  *Source
-	dst  *reflog.Log
-	idFn configpb.IdentityFunction
-	opts core.Options
+	ls   *kernel.Lockstep // spec C20lock only
+	// controllers whose context the driver has ended (read by the lockstep runtime on their goroutines)
+	endedMu   sync.Mutex
+	endedIncs map[string]bool
+	h         *hub
+	prof      Profile
+	pki       *srcPKI
+	src       *Source
+	dst       *reflog.Log
+	idFn      configpb.IdentityFunction
+	opts      core.Options
 
 	incs []*incarnation
 	cur  *incarnation
@@ -232,6 +237,7 @@ var rootMalformedKinds = []string{"nil-response", "nil-root", "root-empty", "roo
 // Init implements kernel.World.
 func (w *World) Init(s *kernel.Sim) {
 	w.s = s
+	w.lockInit()
 	w.h = &hub{s: s, unhang: make(chan struct{})}
 	w.seen, w.open, w.released = map[string]bool{}, map[string]*kernel.Parked{}, map[string]bool{}
 	w.firstPayload, w.idOfIndex, w.indexOfID = map[int64][32]byte{}, map[int64]string{}, map[string]int64{}
@@ -249,6 +255,11 @@ func (w *World) Init(s *kernel.Sim) {
 	}
 	if t.Chance(1, 6) {
 		p.Submitters = 0 // num_submitters not specified: documented as 1
+	}
+	if w.mode.Lock {
+		// one fetcher, one submitter: which of several workers blocked on one channel gets the next batch is the Go
+		// runtime's choice, and in the lockstep spec a worker's name is part of every seam key (cf. the scan world)
+		p.Fetchers, p.Submitters = 1, 1
 	}
 	p.ChannelSize = []int{0, 1, 2, 3, 4, 64}[t.Intn(6)]
 	p.TreeID = []int64{4242, 1, math.MaxInt64}[t.Intn(3)]
@@ -558,6 +569,9 @@ func (w *World) startIncarnation(why string) {
 		s.Probe("entry.RunMigration")
 	}
 	s.Go(func() {
+		if w.ls != nil {
+			w.ls.RT.SetName(fmt.Sprintf("c%d", inc.ID))
+		}
 		var rerr error
 		hasRV := true
 		defer close(inc.doneCh)
@@ -1039,7 +1053,15 @@ func (w *World) Options(s *kernel.Sim) []kernel.Option {
 		return nil
 	}
 	var opts []kernel.Option
+	// Lockstep spec: no clock advance, cancel, crash or loss of mastership while the driver holds a goroutine at a
+	// lock or statement boundary (a goroutine released in front of a select with two ready cases takes either).
+	lockHeld := false
 	for _, p := range parked {
+		if kernel.IsLockSeam(p.Name) {
+			lockHeld = true
+			opts = append(opts, s.ReleaseOpt(p, kernel.Decision{Kind: "ok"}, w.ls.Weight))
+			continue
+		}
 		opts = append(opts, w.okOpt(p, 10))
 	}
 	if !alive && w.restartsLeft > 0 {
@@ -1063,7 +1085,9 @@ func (w *World) Options(s *kernel.Sim) []kernel.Option {
 		cw = clockIdle
 	}
 	for i, d := range kernel.ClockLadder {
-		opts = append(opts, s.AdvanceOpt(d, cw[i]))
+		if !lockHeld {
+			opts = append(opts, s.AdvanceOpt(d, cw[i]))
+		}
 	}
 	if w.growthLeft > 0 {
 		opts = append(opts, kernel.Option{Key: "source grows", Weight: 3, Apply: func() {
@@ -1083,12 +1107,13 @@ func (w *World) Options(s *kernel.Sim) []kernel.Option {
 			s.Logf("sequencer integrates %d -> size %d", n, w.dst.RootSize)
 		}})
 	}
-	if alive {
+	if alive && !lockHeld {
 		inc := w.cur
 		if w.cancelsLeft > 0 && !inc.Cancelled {
 			opts = append(opts, kernel.Option{Key: "cancel controller context", Weight: 1, Apply: func() {
 				w.cancelsLeft--
 				inc.Cancelled = true
+				w.markEnded(inc)
 				w.excuse(inc, "cancel")
 				s.Fault("cancel")
 				inc.cancel()
@@ -1099,6 +1124,7 @@ func (w *World) Options(s *kernel.Sim) []kernel.Option {
 				w.crashesLeft--
 				w.excuse(inc, "crash")
 				inc.Abandoned = true
+				w.markEnded(inc)
 				s.Fault("crash")
 				s.Probe("crash.restart")
 				inc.cancel()
@@ -1117,11 +1143,47 @@ func (w *World) Options(s *kernel.Sim) []kernel.Option {
 		}
 	}
 	for _, p := range parked {
+		if kernel.IsLockSeam(p.Name) {
+			continue
+		}
 		if o, ok := w.faultOpt(p); ok {
 			opts = append(opts, o)
 		}
 	}
 	return opts
+}
+
+// lockInit installs the lockstep runtime for the run (lock spec), or none.
+func (w *World) lockInit() {
+	if !w.mode.Lock || w.s.Timed {
+		lockrt.Install(nil)
+		return
+	}
+	w.ls = kernel.NewLockstep(w.s, true)
+	// a controller whose context the driver has ended (cancel, crash) is no longer scheduled by the driver
+	w.ls.Ended = func(root string) bool {
+		w.endedMu.Lock()
+		defer w.endedMu.Unlock()
+		return w.endedIncs[root]
+	}
+	lockrt.Install(w.ls.RT)
+}
+
+func (w *World) markEnded(inc *incarnation) {
+	w.endedMu.Lock()
+	if w.endedIncs == nil {
+		w.endedIncs = map[string]bool{}
+	}
+	w.endedIncs[fmt.Sprintf("c%d", inc.ID)] = true
+	w.endedMu.Unlock()
+}
+
+func lockSpecs(specs []kernel.Spec, lim kernel.Limits) []kernel.Spec {
+	if !lockrt.Enabled {
+		return specs
+	}
+	lim.MaxSteps, lim.SettleSteps = 4*lim.MaxSteps, 3*lim.SettleSteps
+	return append(specs, kernel.Spec{Prop: "C20lock", Mk: New(Mode{Lock: true}), Limits: lim})
 }
 
 func (w *World) excuse(inc *incarnation, why string) {
@@ -1146,6 +1208,18 @@ func (w *World) goalReached() bool {
 // moves only when nothing is parked, and if no controller is running one fresh
 // run is started (an operator restarting the job).
 func (w *World) settleOptions(s *kernel.Sim) []kernel.Option {
+	if w.ls != nil {
+		w.ls.Quiet() // settle phase: nobody is held at locks or statement boundaries any more
+		var rel []kernel.Option
+		for _, p := range s.ParkedCalls() {
+			if kernel.IsLockSeam(p.Name) {
+				rel = append(rel, s.ReleaseOpt(p, kernel.Decision{Kind: "ok"}, 1))
+			}
+		}
+		if len(rel) > 0 {
+			return rel[:1] // those still held go first, one per step, in canonical order
+		}
+	}
 	if !w.settling {
 		w.settling = true
 		hung := 0
